@@ -378,6 +378,10 @@ func (ld *Loaded) initGlobalFn() func(in *Interp, gl *ssa.Global, c *Cell) {
 			c.V = in.errIface(e)
 			return
 		}
+		if gl.String() == "sync.expunged" { // var expunged = new(any): sync's initialiser is not run
+			c.V = Ptr{Base: in.newCell(et.(*types.Pointer).Elem(), IfaceV{}, "sync.expunged")}
+			return
+		}
 		pkg := gl.Pkg
 		if pkg == nil || in.st.inited[pkg] {
 			return
@@ -641,6 +645,9 @@ func writeEvidence(prop, tier string, pc *PropCfg, sh *Shared, entries []string,
 }
 
 func writeReplay(path string, v *Violation, ld *Loaded, params map[string]int, native bool, attempts int) string {
+	if v.Params != nil {
+		params = v.Params
+	}
 	rec, ok := buildReplay(v, params)
 	status := "not-attempted"
 	write := func() {
